@@ -853,7 +853,8 @@ func main() {
 			return
 		}
 		c.SetRule("url: one request target (path from 43 segment kinds incl. %2F %2f %25 %20 %ff%fe %41 ; + // . .. and raw bytes RFC 3986 forbids; query of 0-5 pairs from 17 keys x 20 values incl. duplicates, empty, valueless, malformed escapes, ';'; every 4th target is raw random bytes) through the real net/url + normalizeLocation + director. " +
-			"forward: one raw HTTP/1.1 round trip through the real handler chain to a scripted upstream: method (11), such a target, 0-6 header lines from 43 (hop-by-hop, Connection-listed, duplicates, casings, X-Forwarded-For, Te, Upgrade, impersonation), body none/0 B..2 MiB plain or chunked, upstream status 200-599, 0-5 of 29 response headers, body 0 B..2 MiB with Content-Length / chunked / close-delimited. " +
+			"forward: one raw HTTP/1.1 round trip through the real handler chain to a scripted upstream: method (11), such a target, 0-6 header lines from 43 (hop-by-hop, Connection-listed, duplicates, casings, X-Forwarded-For, Te, Upgrade, impersonation), body none/0 B..2 MiB plain or chunked, upstream status 200-599, 0-5 of 29 response headers, body 0 B..2 MiB with Content-Length / chunked / close-delimited; every 15th upstream pauses 1-20 ms before the status line, between header and body or between body pieces. " +
+			"delay: such a round trip whose upstream waits for SECONDS at those positions: 1.5 s below and above every time-out constant regenerated from newTransport / newRESTConfig / the dialers and read off the running transport (5 s, 10 s, 30 s; thorough also 90 s), sums of pauses that are each below a constant and together above it, and a few seconds at random; run concurrently with the other streams. " +
 			"term: one of 19 rows of the decision table (17 rows + requests whose RequestInfo does not resolve + requests whose resource is not valid UTF-8) on such a request. distinct = distinct canonical case; non-trivial = (url) the target has an escape, a query or a special byte; (forward) the target is not plain, or it has a query, special headers, a body, or the upstream sends special headers or a body; (term) always")
 		c.SetExtra("volatile_headers_canonicalised", volatileNotes)
 		c.SetExtra("never_generated", []string{"request headers Pragma, Expect, Content-Length/Transfer-Encoding other than the body writer's own, a second Host", "a Connection header naming Accept-Encoding, User-Agent, Content-Length, Authorization or the correlation header", "response header Trailer and trailers, Content-Encoding unless the client sent Accept-Encoding (net/http's transport would decode it)", "1xx upstream statuses other than the 101 of the upgrade case", "CONNECT, OPTIONS *, absolute-form targets, control bytes and spaces in the target (net/http answers 400 before any handler)"})
